@@ -18,7 +18,7 @@
      - original edge attributes being copied to (u.1, v.0), node attributes to v.0, v.1 and (v.0, v.1),
      - the order of [edges_to_ignore],
      - the slicing logic of get_condensed_paths ([range(0, len(path) - 1, 2)], [s[-2:]], [s[:-2]]),
-     - [subpath_constraints[0][0]] raising IndexError when the first constraint is empty.
+     - get_expanded_subpath_constraints rejecting ANY empty constraint with ValueError before the type dispatch.
    Names are prefixed [ne_] because all models are extracted into one OCaml module. *)
 From Coq Require Import List String Ascii Bool Arith ZArith.
 Import ListNotations.
@@ -244,13 +244,18 @@ Fixpoint ne_cons_edges (G : ne_ingraph) (c : list ne_elem) : ne_res (list (strin
       else NE_Err NE_ValueError
   | NE_Node _ :: _ => NE_Err NE_Unmodelled
   end.
-(* get_expanded_subpath_constraints: dispatch on type(subpath_constraints[0][0]) *)
+(* get_expanded_subpath_constraints (since /repo 3d7a4b5): an empty list gives []; ANY empty constraint is a
+   ValueError (checked before the dispatch); then dispatch on type(subpath_constraints[0][0]) *)
 Definition ne_expand_constraints (G : ne_ingraph) (cs : list (list ne_elem)) : ne_res (list (list (string * string))) :=
   match cs with
   | [] => NE_Ok []
-  | [] :: _ => NE_Err NE_IndexError
-  | (NE_Node _ :: _) :: _ => ne_mapM (ne_cons_nodes G) cs
-  | (NE_Edge _ _ :: _) :: _ => ne_mapM (ne_cons_edges G) cs
+  | c0 :: _ =>
+      if existsb (fun c => match c with [] => true | _ => false end) cs then NE_Err NE_ValueError
+      else match c0 with
+           | NE_Node _ :: _ => ne_mapM (ne_cons_nodes G) cs
+           | NE_Edge _ _ :: _ => ne_mapM (ne_cons_edges G) cs
+           | [] => NE_Err NE_ValueError      (* unreachable: excluded by the test above *)
+           end
   end.
 
 (* ------------------------------------------------------------------ get_condensed_paths *)
